@@ -96,47 +96,46 @@ fn log_rule_update(map: &RuleMap) {
 }
 
 pub fn append_rule(rule: Arc<Rule>) -> bool {
-    if RULE_MAP
-        .lock()
-        .unwrap()
+    let mut global_rule_map = RULE_MAP.lock().unwrap();
+    if global_rule_map
         .get(&rule.resource)
         .unwrap_or(&HashSet::new())
         .contains(&rule)
     {
         return false;
     }
-    match rule.is_valid() {
-        Ok(_) => {
-            RULE_MAP
-                .lock()
-                .unwrap()
-                .entry(rule.resource.clone())
-                .or_default()
-                .insert(Arc::clone(&rule));
-        }
-        Err(err) => logging::warn!(
+    if let Err(err) = rule.is_valid() {
+        logging::warn!(
             "[Hot Spot append_rule] Ignoring invalid flow rule {:?}, reason: {:?}",
             rule,
             err
-        ),
+        );
+        return false;
     }
+    global_rule_map
+        .entry(rule.resource.clone())
+        .or_default()
+        .insert(Arc::clone(&rule));
+    // rebuild the controllers of this resource from all of its valid rules,
+    // reusing the controllers (and thus the metrics) of the unchanged ones
+    let valid_rules: HashSet<Arc<Rule>> = global_rule_map[&rule.resource]
+        .iter()
+        .filter(|r| r.is_valid().is_ok())
+        .cloned()
+        .collect();
+    let mut controller_map = CONTROLLER_MAP.write().unwrap();
     let mut placeholder = Vec::new();
     let new_tcs_of_res = build_resource_traffic_shaping_controller(
         &rule.resource,
-        RULE_MAP.lock().unwrap().get(&rule.resource).unwrap(),
-        CONTROLLER_MAP
-            .write()
-            .unwrap()
+        &valid_rules,
+        controller_map
             .get_mut(&rule.resource)
             .unwrap_or(&mut placeholder),
     );
-    if !new_tcs_of_res.is_empty() {
-        CONTROLLER_MAP
-            .write()
-            .unwrap()
-            .entry(rule.resource.clone())
-            .or_default()
-            .push(Arc::clone(&new_tcs_of_res[0]));
+    if new_tcs_of_res.is_empty() {
+        controller_map.remove(&rule.resource);
+    } else {
+        controller_map.insert(rule.resource.clone(), new_tcs_of_res);
     }
     true
 }
